@@ -213,6 +213,12 @@ class Signal( NamedObject, Connectable ):
           xd.top_level_signal = sd.top_level_signal
           xd.elaborate_top = sd.elaborate_top
 
+          # A field signal can itself be the target of "s.x.a.b //= ...",
+          # which performs setattr( s.x.a, 'b', ... ) and hence needs the
+          # same naming metadata as a normally named object.
+          xd.level = sd.level + 1
+          xd.NamedObject_fields = set()
+
           # @bitstruct
           # class SomeMsg:
           #   a: [ Bits8, Bits8 ]
